@@ -454,6 +454,7 @@ func dump(c MergeCase) string {
 // ---------------------------------------------------------------- generator
 
 var hostile = []string{"", "v", "a=b", "http://h/?a=1&b=2", "x==y=", " spaced value ", "it's", "say \"hi\"", "#notcomment", "a: b", "-dash", "=lead", "été", "1", "true", "null", "[x]", "{y}", "tab\there", "back\\slash"}
+
 // names that are prefixes / case variants of each other: a merge keyed by anything but the exact name shows
 var envKeys = []string{"A", "AB", "A_B", "a", "B", "URL", "URL_2", "PATH", "PATH_X", "opt_1"}
 var strVals = []string{"alpha", "beta gamma", "/abs/dir", "rel/dir", "sub", "echo 'q'", "x=y", "z#1"}
